@@ -156,8 +156,22 @@ class FaultyHandle:
             self._s._event('close-after')
         finally:
             if not self._closed:
+                # the fault struck before the handle was closed: like a device that reports the error (e.g. ENOSPC) only at
+                # the final flush, nothing that was written through this handle reached the file
                 self._closed = True
+                try:
+                    self._h.flush()
+                    self._h.truncate(0)
+                except Exception:
+                    pass
                 self._h.close()
+
+    def __del__(self):
+        # like a real file object: closing on finalisation, errors ignored
+        try:
+            self.close()
+        except BaseException:
+            pass
 
     def __enter__(self):
         return self
